@@ -218,6 +218,33 @@ def term_is_complex_matrix(bspecs, term, bases):
     return False
 
 
+def term_rows(bspecs, terms, offset):
+    """the deduplicated symbolic term table, built independently of the library:
+    row = tuple over sites of (symbols, dofs) or None for identity; value = summed factor.
+    `Op("I", first dof of the site)` is the library's own identity symbol and is mapped to None."""
+    n = len(bspecs)
+    rows = {}
+    for t in terms:
+        sp = site_products(bspecs, t)
+        key = []
+        for i in range(n):
+            if i not in sp:
+                key.append(None)
+                continue
+            syms, dofs = sp[i]
+            if syms == ["I"] and dofs == [site_dofs(bspecs[i])[0]]:
+                key.append(None)
+            else:
+                key.append((tuple(syms), repr(dofs)))
+        key = tuple(key)
+        rows[key] = rows.get(key, 0) + term_factor(t)
+    if offset != 0:
+        key = tuple([None] * n)
+        rows[key] = rows.get(key, 0) - offset
+    return rows
+
+
+
 # ------------------------------------------------------------------------------------ generators
 def gen_basis_specs(rng, nsite, kinds=None, qn2=False, maxdim=4, dense_cap=4096):
     """random ordered list of basis sets.  DoF names are a mix of ints, strings and tuples."""
